@@ -9,8 +9,9 @@
 EXTENDS RhoFn, TraceLib
 VARIABLE l
 
+\* by division, not multiplication: a wrong pair may hold anything below 2^31 (the driver clamps larger words)
 SplitOK(m, r) == \/ r = None
-                 \/ /\ Len(r) = 2 /\ r[1] > 1 /\ r[1] < m /\ r[2] > 1 /\ r[1] * r[2] = m
+                 \/ /\ Len(r) = 2 /\ r[1] > 1 /\ r[1] < m /\ m % r[1] = 0 /\ r[2] = m \div r[1]
 
 Predicted(e, k) == CASE e.op = "rho64_batch" -> Rho64(e.ns[k], e.c, e.iters)
                      [] e.op = "rho_batch"   -> Rho(e.ns[k])
